@@ -563,7 +563,9 @@ Eval vm_compute in (%s).
     })
 
 
-THEOREMS = []
+THEOREMS = ["C45_sink_receives_list_semantics", "C45_first_stage_error_ends_the_stream", "C45_any_materialisation",
+            "C45_plan_keeps_operators", "C45_sem_map", "C45_sem_filter", "C45_sem_flatmap", "C45_sem_scan", "C45_sem_buffer",
+            "C45_sem_batch_then_flatten", "C45_sem_batch_chunks", "C45_batch_before_repair_refuted"]
 
 META = {
     "category": "proof",
